@@ -7,6 +7,7 @@ import (
 	"errors"
 	"fmt"
 	"io"
+	"math"
 	"time"
 
 	"hash/crc32"
@@ -808,13 +809,8 @@ func decodeBlockRowDataInto(dst []byte, compressed []byte, block *DataBlockMetad
 	if block.UncompressedSize < 0 {
 		return nil, fmt.Errorf("invalid uncompressed size %d", block.UncompressedSize)
 	}
-	var rowData []byte
-	if cap(dst) >= block.UncompressedSize {
-		rowData = dst[:block.UncompressedSize]
-	} else {
-		rowData = make([]byte, block.UncompressedSize)
-	}
-	if _, err := io.ReadFull(decompressor, rowData); err != nil {
+	rowData, err := readDecodedRowData(decompressor, dst, block.UncompressedSize, len(compressed))
+	if err != nil {
 		return nil, fmt.Errorf("row data shorter than metadata UncompressedSize %d: %w", block.UncompressedSize, err)
 	}
 	var probe [1]byte
@@ -826,6 +822,65 @@ func decodeBlockRowDataInto(dst []byte, compressed []byte, block *DataBlockMetad
 	default:
 		return nil, fmt.Errorf("failed to verify row data ends at UncompressedSize %d: %w", block.UncompressedSize, err)
 	}
+}
+
+// trustedDecodedSize is the largest UncompressedSize that is allocated up
+// front on the word of the block metadata alone, for a block whose compressed
+// row data is compressedLen bytes long. UncompressedSize is covered by the
+// metadata CRC but, unlike offsets and on-disk sizes, it cannot be checked
+// against the file size, so a corrupt or hostile value must not be able to
+// force an allocation out of proportion to the bytes actually present (or a
+// makeslice panic). Larger claims are honored too, but their buffer grows
+// with the bytes the stream really yields (see readDecodedRowData).
+func trustedDecodedSize(compressedLen int) int {
+	const ratio, slack = 32, 64 << 10
+	if compressedLen > (math.MaxInt-slack)/ratio {
+		return math.MaxInt
+	}
+	return compressedLen*ratio + slack
+}
+
+// readDecodedRowData reads exactly size decompressed bytes, into dst when it
+// has the capacity. Otherwise a claimed size within trustedDecodedSize is
+// allocated at once; a larger claim starts there and doubles only as the
+// decompressor delivers data, so memory stays within a small factor of what
+// the stream decodes to even when size is garbage. A stream that ends early
+// returns io.ErrUnexpectedEOF like io.ReadFull.
+func readDecodedRowData(decompressor io.Reader, dst []byte, size, compressedLen int) ([]byte, error) {
+	if trusted := trustedDecodedSize(compressedLen); cap(dst) < size && size > trusted {
+		rowData := make([]byte, 0, trusted)
+		for len(rowData) < size {
+			if len(rowData) == cap(rowData) {
+				newCap := size
+				if cap(rowData) <= size/2 {
+					newCap = 2 * cap(rowData)
+				}
+				grown := make([]byte, len(rowData), newCap)
+				copy(grown, rowData)
+				rowData = grown
+			}
+			n, err := decompressor.Read(rowData[len(rowData):cap(rowData)])
+			rowData = rowData[:len(rowData)+n]
+			if err != nil && len(rowData) < size {
+				if err == io.EOF {
+					err = io.ErrUnexpectedEOF
+				}
+				return nil, err
+			}
+		}
+		return rowData, nil
+	}
+
+	var rowData []byte
+	if cap(dst) >= size {
+		rowData = dst[:size]
+	} else {
+		rowData = make([]byte, size)
+	}
+	if _, err := io.ReadFull(decompressor, rowData); err != nil {
+		return nil, err
+	}
+	return rowData, nil
 }
 
 // ReadDataBlockRowData reads a block's compressed row data fully (bounded by
@@ -881,7 +936,13 @@ func readPooledBlockRowData(file io.ReadSeeker, block *DataBlockMetadata) (rowDa
 		return rowData, func() { putScanBuffer(compressed) }, nil
 	}
 
-	dst := getScanBuffer(block.UncompressedSize)
+	// An UncompressedSize out of proportion to the compressed bytes is not
+	// drawn from the pool (the pool would allocate it outright): decode then
+	// sizes its own buffer from what the stream yields.
+	var dst []byte
+	if block.UncompressedSize <= trustedDecodedSize(len(compressed)) {
+		dst = getScanBuffer(block.UncompressedSize)
+	}
 	rowData, err = decodeBlockRowDataInto(dst, compressed, block)
 	// The decompressors copy into rowData and their pooled state is Reset
 	// inside decode, so the compressed buffer is reusable as soon as decode
